@@ -67,6 +67,9 @@ pub fn vx_select2<Req, Res, E>(c1: bool, Tracked(tr): Tracked<&mut Trace<Req, Re
     ensures *final(tr) == *old(tr), r <= 2, r == 0 ==> old(tr).queue.len() > 0, r == 1 ==> c1, r == 2 ==> old(tr).queue.len() == 0 && !c1,
 { unimplemented!() }
 pub fn vx_branch_disabled() requires false { }
+/// a select! branch that cannot be taken
+#[verifier::external_body]
+pub fn vx_never<T>() -> (r: T) requires false { unimplemented!() }
 impl SleepFut {
     /// `&mut sleep` awaited in place
     #[verifier::external_body]
